@@ -25,7 +25,7 @@ class H(BaseHTTPRequestHandler):
         body = self.rfile.read(n).decode('utf8', 'replace')
         rec = {"path": self.path, "headers": [[k, v.encode('latin-1', 'replace').decode('utf-8', 'replace')] for k, v in self.headers.items()], "body": body}
         sys.stdout.write("REQ " + json.dumps(rec) + "\n"); sys.stdout.flush()
-        beh = self.path.strip('/')
+        beh = self.path.strip('/').split('/')[0]
         if beh == '200-json':
             self.send_response(200); self.send_header('Content-Type', 'application/json'); self.end_headers(); self.wfile.write(BODY.encode())
         elif beh == '200-garbage':
@@ -52,6 +52,8 @@ struct Mock {
     port: u16,
     body: Value,
     lines: std::sync::mpsc::Receiver<String>,
+    /// consecutive cases in which an expected request never showed up (bounds the waiting)
+    misses: std::cell::Cell<u32>,
 }
 
 fn start_mock() -> Option<Mock> {
@@ -72,17 +74,37 @@ fn start_mock() -> Option<Mock> {
     let port: u16 = port_line.strip_prefix("PORT ")?.trim().parse().ok()?;
     let body_line = rx.recv_timeout(std::time::Duration::from_secs(10)).ok()?;
     let body: Value = serde_json::from_str(body_line.strip_prefix("BODY ")?).ok()?;
-    Some(Mock { child, port, body, lines: rx })
+    Some(Mock { child, port, body, lines: rx, misses: std::cell::Cell::new(0) })
 }
 
-fn drain(m: &Mock) -> Vec<Value> {
+/// The requests the server logged for the case tagged `tag` (the last path segment of the URL the
+/// case used).  The server writes its REQ line before it answers, so a command that has received an
+/// answer has a line in the pipe; the reader thread may still deliver it late on a loaded machine.
+/// When a request is expected we therefore wait for it (up to 3 s, shortened after repeated misses);
+/// lines of other cases — late deliveries — are never attributed to this one.
+fn drain(m: &Mock, tag: &str, expect: bool) -> Vec<Value> {
     let mut v = vec![];
-    while let Ok(l) = m.lines.recv_timeout(std::time::Duration::from_millis(60)) {
-        if let Some(r) = l.strip_prefix("REQ ") {
-            if let Ok(j) = serde_json::from_str(r) {
-                v.push(j);
+    let long = if m.misses.get() >= 3 { 200 } else { 3000 };
+    let deadline = std::time::Instant::now() + std::time::Duration::from_millis(long);
+    let suffix = format!("/{}", tag);
+    loop {
+        let now = std::time::Instant::now();
+        let wait = if expect && v.is_empty() && now < deadline { (deadline - now).max(std::time::Duration::from_millis(60)) } else { std::time::Duration::from_millis(60) };
+        match m.lines.recv_timeout(wait) {
+            Ok(l) => {
+                if let Some(r) = l.strip_prefix("REQ ") {
+                    if let Ok(j) = serde_json::from_str::<Value>(r) {
+                        if j["path"].as_str().map(|p| p.ends_with(&suffix)).unwrap_or(false) {
+                            v.push(j);
+                        }
+                    }
+                }
             }
+            Err(_) => break,
         }
+    }
+    if expect {
+        m.misses.set(if v.is_empty() { m.misses.get() + 1 } else { 0 });
     }
     v
 }
@@ -165,21 +187,23 @@ pub fn run(outdir: &Path, tier: &str, seed: u64, shards: usize, _replay: Option<
         }
         headers.push(s);
     }
-    for h in &headers {
+    for (hi, h) in headers.iter().enumerate() {
         if h.contains('\n') || h.contains('\r') {
             continue;
         }
+        let tag = format!("h{}", hi);
         let out = Command::new(&bin)
-            .args(["introspect-schema", &format!("http://127.0.0.1:{}/200-json", mock.port), &format!("--header={}", h)])
+            .args(["introspect-schema", &format!("http://127.0.0.1:{}/200-json/{}", mock.port, tag), &format!("--header={}", h)])
             .current_dir(&work)
             .stdout(Stdio::null())
             .stderr(Stdio::piped())
             .output();
-        let reqs = drain(&mock);
         let (code, stderr) = match out {
             Ok(o) => (o.status.code(), String::from_utf8_lossy(&o.stderr).to_string()),
             Err(_) => (None, String::new()),
         };
+        // exit 0 means the command received the served document: a request was made
+        let reqs = drain(&mock, &tag, code == Some(0));
         // what the server saw for a custom header: a header that is not one of the standard ones
         let std_h = ["content-type", "accept", "host", "content-length", "user-agent", "accept-encoding", "connection"];
         let obs: Option<(String, String)> = reqs.get(0).and_then(|r| r["headers"].as_array().cloned()).and_then(|hs| {
@@ -214,7 +238,7 @@ pub fn run(outdir: &Path, tier: &str, seed: u64, shards: usize, _replay: Option<
                 let variants: Vec<usize> = if tier == "thorough" { (0..6).collect() } else { vec![(n + 1) % 6] };
                 for variant in variants {
                     n += 1;
-                    let url = if beh == "refused" { "http://127.0.0.1:1/x".to_string() } else { format!("http://127.0.0.1:{}/{}", mock.port, beh) };
+                    let url = if beh == "refused" { "http://127.0.0.1:1/x".to_string() } else { format!("http://127.0.0.1:{}/{}/r{}", mock.port, beh, n) };
                     let mut args: Vec<String> = vec!["introspect-schema".into(), url];
                     if *one_of { args.push("--is-one-of".into()); }
                     if *by_url { args.push("--specify-by-url".into()); }
@@ -248,7 +272,7 @@ pub fn run(outdir: &Path, tier: &str, seed: u64, shards: usize, _replay: Option<
                         args.push("s3cret-token".into());
                     }
                     let out = Command::new(&bin).args(&args).current_dir(&work).stderr(Stdio::null()).output();
-                    let reqs = drain(&mock);
+                    let reqs = drain(&mock, &format!("r{}", n), beh != "refused");
                     let exit_ok = out.as_ref().map(|o| o.status.success()).unwrap_or(false);
                     let req = reqs.get(0);
                     let sent_body: Option<Value> = req.and_then(|r| serde_json::from_str(r["body"].as_str().unwrap_or("")).ok());
